@@ -75,9 +75,9 @@ def run(ctx, pid):
     w = max(2, vlib.NCPU // 4)
     plan = [
         ("byte", zc.cfg_with("cache/MC_SketchByte.cfg", {}), None, 2),
-        ("lfu", zc.cfg_with("cache/MC_SketchLfu.cfg", {"MaxOps": ctx.pick(4, 6)}), None, w),
-        ("gen", zc.cfg_with("cache/MC_SketchGen.cfg", {"MaxOps": ctx.pick(4, 5)}), None, w),
-        ("sk", zc.cfg_with("cache/MC_SketchSk.cfg", {"MaxOps": ctx.pick(6, 9)}), None, w),
+        ("lfu", zc.cfg_with("cache/MC_SketchLfu.cfg", {"MaxOps": ctx.pick(6, 10)}), None, w),
+        ("gen", zc.cfg_with("cache/MC_SketchGen.cfg", {"MaxOps": ctx.pick(6, 9)}), None, w),
+        ("sk", zc.cfg_with("cache/MC_SketchSk.cfg", {"MaxOps": ctx.pick(8, 12)}), None, w),
         ("sim-lfu", strip_props(zc.cfg_with("cache/MC_SketchLfu.cfg", {"MaxOps": 14})),
          {"num": ctx.pick(120, 1500), "depth": 15, "file": "beh"}, 1),
         ("sim-sk", strip_props(zc.cfg_with("cache/MC_SketchSk.cfg", {"MaxOps": 20})),
@@ -146,7 +146,7 @@ def run(ctx, pid):
         "exhaustive": True,
         "tlc_runs": runs,
         "rule": "byte layer: all 256 byte values x 4 operations (exhaustive). Sketch/TinyLFU layer: all behaviours of "
-                "<= MaxOps operations (Inc, Push of 2 keys, Reset, Clear) over 4 keys, 4x4 counters, counters starting "
+                "<= MaxOps operations (Inc, Push of 4 chosen key sequences, Reset, Clear) over 4 keys, 4x4 counters, counters starting "
                 "at 0 and at 13, XOR and general index functions. Real code: every byte-level transition (+ neighbour "
                 "bytes), every simulated behaviour (<= 14 / 20 operations), seeded random sequences on NumCounters "
                 "2..64 with the aging reset at every position, sizing for NumCounters 2..65 and 14 large values; one "
